@@ -130,6 +130,12 @@ def judge (f out : List String) : Verdict :=
         { corr := gzOpen == "1" && lenOk, judge := some j, cls := base ++ "/openerr",
           detail := if j then "" else "Read returned an error on an undamaged file, or left a goroutine behind" }
       else { corr := gzOpen == "1" && lenOk, judge := none, cls := base ++ "/openerr-nothing-run", detail := "" }
+    | "ok" :: "violation" :: reason :: more =>
+      -- the parser finished but the harness saw what the property forbids for every stream: a value after
+      -- "closed", a panic of the parser goroutine, a second dump (opened before the first was consumed) that
+      -- did not come through intact
+      { corr := false, judge := some false, cls := base ++ "/violation",
+        detail := "harness: " ++ short (reason ++ " " ++ lineOf more) }
     | "ok" :: closed :: nErr :: nDel :: rest =>
       match takeEntries (natOfStr nDel) rest with
       | some (del, syms :: nTr :: rest2) =>
@@ -191,7 +197,8 @@ def judge (f out : List String) : Verdict :=
       -- op: the property demands termination for EVERY stream, and a data race is a failure whatever the input
       let inDom := status == "race" || status == "crash" || status == "timeout" || isGzDamage c.dm ||
         (match classify c.doc r c.dm with | .unknown => false | _ => true)
-      { corr := false, judge := if inDom then some false else none, cls := base ++ "/no-reply-" ++ status,
+      let kind := match out with | _ :: k :: _ => if status == "timeout" then "-" ++ k else "" | _ => ""
+      { corr := false, judge := if inDom then some false else none, cls := base ++ "/no-reply-" ++ status ++ kind,
         detail := "harness: " ++ short (lineOf out) }
     | [] => badCase
 
